@@ -14,8 +14,8 @@ PLAN["C20"] = dict(
          "Non-trivial = an ordered pair of different intervals that are adjacent, nested, or touch 0 / 0x2FFFF; distinct = digest of the decoded list (generated) / distinct by construction (enumerated).",
     oracle="R6: the alphabet is cut into segments at all end points of the case; each interval is a bit mask over segments; contains/covers/before/after/size/singleton/alphabet/inter/inter_list/union/pick/partial_cmp/== are compared with brute-force set operations on the masks (true cardinalities from segment widths)",
     assumptions=COMMON_ASSUMPTIONS + ["a CharSet returned by the crate is observed through contains() at both ends and the middle of every segment, plus size()"],
-    quick=dict(enum={"rel": 4, "dbg": 2}, proptest={"rel": (8, 20000), "dbg": (4, 10000)}),
-    thorough=dict(enum={"rel": 16, "dbg": 4}, proptest={"rel": (16, 300000), "dbg": (8, 100000)}),
+    quick=dict(enum={"rel": 4, "dbg": 2, "o0": 1}, proptest={"rel": (8, 20000), "dbg": (4, 10000)}),
+    thorough=dict(enum={"rel": 16, "dbg": 4, "o0": 1}, proptest={"rel": (16, 300000), "dbg": (8, 100000)}),
 )
 
 PLAN["C11"] = dict(
@@ -24,8 +24,8 @@ PLAN["C11"] = dict(
          "Non-trivial = partition with >= 2 intervals and a query set with an end point in a gap; distinct = digest of (partition, queries, list) / by construction.",
     oracle="R6 linear scans written from the definitions: class_of_char, interval_cover/class_of_set/good_char_set (CoveredBy(i) iff inside interval i, DisjointFromAll iff meets none, else Overlaps/AmbiguousCharSet), empty_complement, pick_complement, num_classes, valid_class_id, class_ids, picks, pick, get/start/end/interval/ranges; try_from_iter Ok iff pairwise disjoint and same intervals as push",
     assumptions=COMMON_ASSUMPTIONS + ["partitions are compared by their intervals and emptiness of the complement; the complement witness only has to be a member of the complement (or MAX+1)"],
-    quick=dict(enum={"rel": 8, "dbg": 4}, proptest={"rel": (8, 15000), "dbg": (4, 8000)}),
-    thorough=dict(enum={"rel": 16, "dbg": 8}, proptest={"rel": (16, 200000), "dbg": (8, 60000)}),
+    quick=dict(enum={"rel": 8, "dbg": 4, "o0": 1}, proptest={"rel": (8, 15000), "dbg": (4, 8000)}),
+    thorough=dict(enum={"rel": 16, "dbg": 8, "o0": 1}, proptest={"rel": (16, 200000), "dbg": (8, 60000)}),
 )
 
 PLAN["C12"] = dict(
@@ -33,8 +33,8 @@ PLAN["C12"] = dict(
          "Non-trivial = some interval of p1 and some interval of p2 overlap without being equal, or are adjacent; distinct = digest of the partition list / by construction.",
     oracle="label(x) = tuple of the classes of x in the inputs (linear scan); result intervals sorted and disjoint; labels constant inside every result interval and never all-complement; every character outside the result has the all-complement label; two adjacent result intervals never share a label (maximality, interval reading of 'coarsest', DESIGN.md section 4/C12); witness in the complement or MAX+1; merge with the empty partition / itself / in the other order and merge_partition_list under reversal and rotation give the same intervals",
     assumptions=COMMON_ASSUMPTIONS + ["'coarsest common refinement' is read as maximality among interval partitions, which is what the crate documents and what the statement's 'sorted, disjoint, maximal' says"],
-    quick=dict(enum={"rel": 8, "dbg": 2}, proptest={"rel": (8, 15000), "dbg": (4, 8000)}),
-    thorough=dict(enum={"rel": 16, "dbg": 4}, proptest={"rel": (16, 200000), "dbg": (8, 60000)}),
+    quick=dict(enum={"rel": 8, "dbg": 2, "o0": 2}, proptest={"rel": (8, 15000), "dbg": (4, 8000)}),
+    thorough=dict(enum={"rel": 16, "dbg": 4, "o0": 2}, proptest={"rel": (16, 200000), "dbg": (8, 60000)}),
 )
 
 PLAN["C15"] = dict(
@@ -52,8 +52,8 @@ PLAN["C06"] = dict(
          "Non-trivial = non-empty pattern occurring in the subject, or an index within 1 of 0 or of |s|; distinct = digest of the decoded tuple / by construction.",
     oracle="R7: SMT-LIB 2.6 definitions written on Vec<u32> with i64 arithmetic (indexof = least n >= i with an occurrence at n for 0 <= i <= |s|; replace = leftmost occurrence, empty pattern at 0; replace_all = left-to-right non-overlapping, identity for the empty pattern); exact equality for all ten functions",
     assumptions=COMMON_ASSUMPTIONS,
-    quick=dict(enum={"rel": 8, "dbg": 4}, proptest={"rel": (8, 40000), "dbg": (4, 15000)}),
-    thorough=dict(enum={"rel": 16, "dbg": 8}, proptest={"rel": (16, 1500000), "dbg": (8, 300000)}),
+    quick=dict(enum={"rel": 8, "dbg": 4, "o0": 2}, proptest={"rel": (8, 40000), "dbg": (4, 15000)}),
+    thorough=dict(enum={"rel": 16, "dbg": 8, "o0": 2}, proptest={"rel": (16, 1500000), "dbg": (8, 300000)}),
 )
 
 PLAN["C08"] = dict(
@@ -73,8 +73,8 @@ PLAN["C09"] = dict(
     oracle="str_lt/str_le = Rust slice order on [u32] plus trichotomy, le = lt or eq, transitivity, prefix => le; str_to_int against a u128 evaluation: all-digit and <= i32::MAX => that value, all-digit and larger => must panic, otherwise -1 without panic; from_int/to_code/from_code/is_digit by definition; to_code(from_code(x)) = x and to_int(from_int(n)) = n",
     assumptions=COMMON_ASSUMPTIONS + ["'every build profile' = the two profiles a cargo user gets: release-like (opt-level 3, no overflow checks, no debug assertions) and dev/test-like (overflow checks and debug assertions on)"],
     same_seeds=True,
-    quick=dict(enum={"rel": 8, "dbg": 8}, proptest={"rel": (8, 40000), "dbg": (8, 40000)}, same_seeds=True),
-    thorough=dict(enum={"rel": 16, "dbg": 16}, proptest={"rel": (16, 1000000), "dbg": (16, 1000000)}, same_seeds=True),
+    quick=dict(enum={"rel": 8, "dbg": 8, "o0": 2}, proptest={"rel": (8, 40000), "dbg": (8, 40000)}, same_seeds=True),
+    thorough=dict(enum={"rel": 16, "dbg": 16, "o0": 2}, proptest={"rel": (16, 1000000), "dbg": (16, 1000000)}, same_seeds=True),
 )
 
 PLAN["C17"] = dict(
@@ -146,8 +146,8 @@ PLAN["C19"] = dict(
     rule=RX_GEN % 10 + "; bounds n in {0, 1, N-1, N, N+1, 2N, usize::MAX, random} where N is the derivative count measured by the harness's own BFS. Non-trivial = N >= 4; distinct = digest of (landmarks, program).",
     oracle="iter_derivatives(e): first item is e (pointer), no item repeats, item set == closure computed independently by BFS with char_derivative over all class-boundary characters, and the yielded set is closed; try_compile(e,n) is Some <=> N <= n (None for n = 0); compile(e) succeeds; num_states() == N in both",
     assumptions=RX_ASSUME + ["termination of iter_derivatives is only observable up to the cap of 400 derivatives (a case above the cap is a counted discard; a hang is caught by the watchdog and reported as exit 2)"],
-    quick=dict(proptest={"rel": (12, 40000), "dbg": (4, 8000)}),
-    thorough=dict(proptest={"rel": (16, 250000), "dbg": (8, 60000)}),
+    quick=dict(enum={"rel": 3, "dbg": 3, "o0": 2}, proptest={"rel": (12, 40000), "dbg": (4, 8000)}),
+    thorough=dict(enum={"rel": 3, "dbg": 3, "o0": 2}, proptest={"rel": (16, 250000), "dbg": (8, 60000)}),
 )
 
 AUTO_GEN = ("generation: tapes decoded either (35%) into a regex program that is compiled, or (65%) into a semantic DFA over 1-4 landmarks' atoms (1-5 base states whose rows are runs of consecutive atoms, all-final / none-final variants), "
@@ -161,8 +161,8 @@ PLAN["C04"] = dict(
     rule="enumeration: 10 scale cases (two states that differ only on alphabet classes of index beyond 2^16; counter automata modulo n with m labelled characters and every state duplicated, up to 66000 labelled characters; automata with up to 66000 equivalent sinks and the accepting state at the largest id) whose Myhill-Nerode index is known in closed form; " + AUTO_GEN + "; the same source is built twice (A kept, B minimised). Non-trivial = A has two equivalent states (Moore refinement through next() finds fewer classes than states) and >= 2 classes remain; distinct = digest of the source.",
     oracle="independent Moore partition refinement written in the harness, run through next() only: L(B) = L(A) = reference language by exact product (R5); refinement of B yields B.num_states() classes (no two equivalent states); when every state of A is reachable B.num_states() equals the size of the minimal complete reference DFA (Myhill-Nerode index); a second minimize changes nothing; initial state, is_final, num_final_states, final_states consistent",
     assumptions=AUTO_ASSUME,
-    quick=dict(enum={"rel": 4, "dbg": 4}, proptest={"rel": (12, 40000), "dbg": (4, 8000)}),
-    thorough=dict(enum={"rel": 4, "dbg": 4}, proptest={"rel": (16, 250000), "dbg": (8, 60000)}),
+    quick=dict(enum={"rel": 4, "dbg": 4, "o0": 2}, proptest={"rel": (12, 40000), "dbg": (4, 8000)}),
+    thorough=dict(enum={"rel": 4, "dbg": 4, "o0": 2}, proptest={"rel": (16, 250000), "dbg": (8, 60000)}),
 )
 
 PLAN["C13"] = dict(
@@ -170,16 +170,16 @@ PLAN["C13"] = dict(
          "Non-trivial = >= 2 labels and (the specification has a conflict or an incomplete state, or some state has >= 2 transitions and no default); distinct = digest of the call sequence.",
     oracle="the specification's own meaning by linear scan per state: conflict (a character in two labels with different targets), incomplete (a character with neither label nor declared default); Ok => neither holds anywhere; a specification with pairwise disjoint labels, complete, defaults declared only where a gap is left => must be Ok; for Ok: lock-step walk from initial_state() and the label given to new builds a label<->state bijection under which is_final = marked and, for every break-point character, the successor is the explicit transition covering it, else the declared default; num_states = labels mentioned, num_final_states = labels marked",
     assumptions=COMMON_ASSUMPTIONS + ["error variants and state ids are not checked; same-target overlaps and a default declared although everything is covered may be accepted or rejected (the statement allows both)"],
-    quick=dict(proptest={"rel": (12, 50000), "dbg": (4, 10000)}),
-    thorough=dict(proptest={"rel": (16, 400000), "dbg": (8, 100000)}),
+    quick=dict(enum={"rel": 2, "dbg": 2, "o0": 2}, proptest={"rel": (12, 50000), "dbg": (4, 10000)}),
+    thorough=dict(enum={"rel": 2, "dbg": 2, "o0": 2}, proptest={"rel": (16, 400000), "dbg": (8, 100000)}),
 )
 
 PLAN["C14"] = dict(
     rule=AUTO_GEN + "; built twice (A kept, B pruned). Non-trivial = at least one unreachable state is removed, or the automaton has >= 3 states of which >= 2 have both explicit transitions and a default (sparse rows that share the compact table); distinct = digest of the source.",
     oracle="reference reachability by BFS through next(); after remove_unreachable_states: num_states = |reach|, a lock-step walk from the initial states is a bijection reach(A) <-> states(B) preserving finality and every transition, language unchanged (product with the reference DFA); combined_char_partition: all break-point characters that fall in one class have identical next() in every state; pick_alphabet hits every class exactly once; compile_successors().eval(id, i) = next(state, alphabet[i]).id for EVERY cell; edges(s) = one pair per range plus one for the default, each equal to next/class_next; num_states/num_final_states/final_states/ids consistent with states()",
     assumptions=AUTO_ASSUME,
-    quick=dict(enum={"rel": 3, "dbg": 3}, proptest={"rel": (12, 25000), "dbg": (4, 6000)}),
-    thorough=dict(enum={"rel": 3, "dbg": 3}, proptest={"rel": (16, 200000), "dbg": (8, 50000)}),
+    quick=dict(enum={"rel": 3, "dbg": 3, "o0": 2}, proptest={"rel": (12, 25000), "dbg": (4, 6000)}),
+    thorough=dict(enum={"rel": 3, "dbg": 3, "o0": 2}, proptest={"rel": (16, 200000), "dbg": (8, 50000)}),
 )
 
 PLAN["C07"] = dict(
@@ -187,8 +187,8 @@ PLAN["C07"] = dict(
          "Non-trivial = a Rebuild (or the final re-issue) separated from its Build by >= 3 allocating operations including a derivative/compile/emptiness call, and a union/intersection whose operands are not in increasing slot order; distinct = digest of (manager kind, landmarks, operation list).",
     oracle="model: every slot carries the term and its reference DFA (constructor slots: reference operation on the operands' DFAs; derivative slots: reference quotient). After every step: Rebuild is == and pointer-identical; for all pairs of slots a == b <=> same address, and same address => equal reference languages; complement(complement(e)) is e and complement(e) differs from e; the language of each new term (and of its complement) equals its reference by bisimulation (R5), again at the end of the history and on a fresh manager (history independence); is_empty_re/str_in_re answers agree with the reference at every point of the history",
     assumptions=RX_ASSUME + ["union(a,b) and union(b,a) are different argument lists: only equal languages are required of them, not identity", "through the wrappers languages are compared on shortest members/non-members and sampled strings (no derivative API is exposed there)"],
-    quick=dict(enum={"rel": 1, "dbg": 1}, proptest={"rel": (12, 12000), "dbg": (4, 3000)}),
-    thorough=dict(enum={"rel": 1, "dbg": 1}, proptest={"rel": (16, 80000), "dbg": (8, 20000)}),
+    quick=dict(enum={"rel": 1, "dbg": 1, "o0": 1}, proptest={"rel": (12, 12000), "dbg": (4, 3000)}),
+    thorough=dict(enum={"rel": 1, "dbg": 1, "o0": 1}, proptest={"rel": (16, 80000), "dbg": (8, 20000)}),
 )
 
 PLAN["C10"] = dict(
